@@ -48,9 +48,11 @@ def run(chk):
                        "directed template (corr:tag_scopes: converted expression and collected flag of every value, in visiting order). The generation-time scope stack "
                        "(proc_gen) is exercised by the render oracle, and for wx:for item / index names (default, renamed, colliding with data fields and with each other "
                        "across nesting) by corr:tagsem: the tag-level model resolves names with convertScopes (the function convert_resolves is about) and evaluates them; "
-                       "its trees are compared with the real compiler + runtime",
+                       "its trees are compared with the real compiler + runtime; that a generated identifier never captures or is captured by a visible one is monitor_sound "
+                       "(GE/Thm/C02Writer.lean) over the writer model, replayed on the real generators' writer operations for these templates (corr:js-writer)",
                        "slot: value scopes of dynamic-slot content are exercised by the C06 / C07 oracles over the stub dynamic-slot component; here by the parser-level stream only"]
-    chk.model_tie([("GE.Thm.C05", THEOREMS), ("GE.Thm.C05Tag", THM_TAG)])
+    chk.model_tie([("GE.Thm.C05", THEOREMS), ("GE.Thm.C05Tag", THM_TAG),
+                   ("GE.Thm.C02Writer", ["GE.JsWriter.monitor_sound", "GE.JsWriter.names_fresh"])])
     from . import tagsem
     tagsem.stream(chk, chk.rng.fork("tagsem5"), 150 if quick else 3000)
     rng = chk.rng.fork("c05")
@@ -109,6 +111,10 @@ def run(chk):
         ts.append(t)
         srcs.append(tg.Printer().template(t))
     tag_scope_stream(chk, srcs)
+    # generation side: the identifiers the generators hand out for scope variables (wx:for parameters, slot values, script modules, hoisted functions) never
+    # equal an identifier visible where they are used - monitor_sound over the writer model, tied to the real writers on these very templates (corr:js-writer)
+    from . import jswriter
+    jswriter.run(chk, [tg.group_request(t, s) for t, s in zip(ts, srcs)][::-1], cap=120 if quick else 1200)
     groups = render.compile_templates([tg.group_request(t, s) for t, s in zip(ts, srcs)])
     items, idx = [], []
     for i, (t, g) in enumerate(zip(ts, groups)):
